@@ -12,11 +12,13 @@ for mf in sorted(glob.glob(os.path.join(V, "seeded", "*", "meta.json"))):
         if v["detected"] and v["signatures"]:
             sig = v["signatures"][0].split("  case=")[0]; break
     if not sig and det: sig = "crash (AddressSanitizer report inside the library), case id in replays/<ID>/crash.json"
-    rows.append((m["seed"], ",".join(m["breaks"]), "yes" if m["confirmed"] else "NO", ", ".join(det) or "-", ", ".join(miss) or "-", m["needs_to_manifest"], sig))
+    if m.get("outside_statement"): sig = "OUTSIDE THE STATEMENT: " + m["outside_statement"]
+    rows.append((m["seed"], ",".join(m["breaks"]), "yes" if m["confirmed"] else "NO", ", ".join(det) or "-", ", ".join(miss) or "-", m["needs_to_manifest"], sig, bool(m.get("outside_statement"))))
 with open(os.path.join(V, "seeded", "RESULTS.md"), "w") as f:
     f.write("# Independently written breaking changes (seeds) and which check catches them\n\n")
     f.write("Each seed was written by a fresh sub-agent that saw only the property text and a scratch worktree of /repo\n(nothing from /verif). `confirmed` = on a scratch copy the repository's 31 tests pass with the change, the agent's\ndemonstration exits 0 without and non-zero with it (tools/process_seed.py). Detection = the named check, run with\nVERIF_REPO pointing at the patched copy, prints a VIOLATION line and exits 1.\n\n")
     f.write("| seed | property | confirmed | caught by | not caught by | needs to manifest | first signature |\n|---|---|---|---|---|---|---|\n")
-    for r in rows: f.write("| " + " | ".join(x.replace("|", "\\|") for x in r) + " |\n")
-    f.write("\n%d seeds, %d confirmed, %d caught by at least one check at the quick tier.\n" % (len(rows), sum(1 for r in rows if r[2] == "yes"), sum(1 for r in rows if r[3] != "-")))
+    for r in rows: f.write("| " + " | ".join(x.replace("|", "\\|") for x in r[:7]) + " |\n")
+    ins = [r for r in rows if not r[7]]
+    f.write("\n%d seeds, %d confirmed; %d change something the property does not speak about (kept, marked above); of the other %d, %d are caught by at least one check at the quick tier.\n" % (len(rows), sum(1 for r in rows if r[2] == "yes"), len(rows) - len(ins), len(ins), sum(1 for r in ins if r[3] != "-")))
 print(open(os.path.join(V, "seeded", "RESULTS.md")).read()[-400:])
